@@ -75,6 +75,10 @@ pub fn gen(seed: u64, tier: Tier) -> ScenarioSpec {
     if rec.end == EndKind::Single && !rec.extras.unknown.iter().any(|u| u.after.iter().any(|k| *k >= 1_000_000)) && rng.chance(1, 8) {
         rec.raw_len_zero = true;
     }
+    if rng.chance(1, 6) {
+        // the payload table may declare events that never occur (a recorder built with support it does not use)
+        rec.extras.phantom = super::c17::gen_phantom(&mut rng, (rec.version[0], rec.version[1]));
+    }
     let len = gen::approx_len(&rec);
     let skip_hash = rng.chance(1, 2);
     let live = rng.chance(3, 10) && !rec.raw_len_zero;
